@@ -227,9 +227,13 @@ Definition seed_respected (W : jworld) (e : N * nv) : bool :=
    (a lockfile entry that no specifier asked for stays in the table as the lockfile wrote it) *)
 Definition resolved_reqs (W : jworld) (g : jgraph) : list N :=
   flat_map (fun r => match cls_of W (fst r) with CJsr _ req _ => [req] | _ => [] end) (jg_redirects g).
+Definition req_respected (W : jworld) (g : jgraph) (req : N) : bool :=
+  match lookup req (pt_map (jg_pkgs g)) with
+  | Some v => seed_respected W (req, v)
+  | None => false          (* a resolved requirement is mapped *)
+  end.
 Definition c06_judgement (W : jworld) (g : jgraph) (roots : list spec) : list sexp :=
-  let rs := resolved_reqs W g in
-  if forallb (seed_respected W) (filter (fun e => mem (fst e) rs) (pt_map (jg_pkgs g))) then [judge true]
+  if forallb (req_respected W g) (resolved_reqs W g) then [judge true]
   else if jg_restarted g then [judge false; L [A CLASSTAG; A 602]]
   else [judge false].
 
